@@ -40,6 +40,9 @@ pub enum Source {
     /// image produced by the real code running a generated workload in v1/v2 compatibility mode;
     /// `crash` selects a crash image (point scaled, seed for the subset) instead of the final file
     Workload { case: Case, crash: Option<(u16, u64)> },
+    /// hundreds of keys with two generations each (see `synthrec::MassSpec`): sources whose
+    /// duplicate count exceeds every batch size of the scan
+    Mass { spec: crate::props::synthrec::MassSpec },
 }
 
 #[derive(Clone, Debug, Serialize, Deserialize)]
@@ -99,7 +102,12 @@ fn source_strategy(tier: Tier) -> BoxedStrategy<Source> {
         ..Bias::default()
     };
     let workload = (case_strategy(&bias), proptest::option::of((any::<u16>(), any::<u64>()))).prop_map(|(case, crash)| Source::Workload { case, crash });
-    prop_oneof![3 => synth, 2 => workload].boxed()
+    let mass = crate::props::synthrec::mass_strategy().prop_map(|mut spec| {
+        spec.version = 1 + (spec.pairs as u32 % 2);
+        spec.cuts.clear();
+        Source::Mass { spec }
+    });
+    prop_oneof![9 => synth, 6 => workload, 1 => mass].boxed()
 }
 
 fn case_strat(tier: Tier) -> BoxedStrategy<MigCase> {
@@ -263,6 +271,7 @@ struct Notes {
 fn materialise(src: &Source) -> Option<(Vec<u8>, u32)> {
     match src {
         Source::Synth { version, items, journal_items, plain_meta, .. } => Some((build_synth(*version, items, journal_items, *plain_meta), *version)),
+        Source::Mass { spec } => Some((crate::props::synthrec::mass_image(spec), spec.version)),
         Source::Workload { case, crash: c } => {
             let run = crash::run_workload(case);
             if !run.usable || run.entries.is_empty() {
